@@ -18,7 +18,10 @@ PROPERTY = "C16"
 TRACE = "T_RangeDim"
 ENUM = {
     "quick":    [dict(module="MC_RangeDim", cfg="MC_RangeDim_quick.cfg", workers=8)],
-    "thorough": [dict(module="MC_RangeDim", cfg="MC_RangeDim_thorough.cfg", workers=16, coverage=True)],
+    # TLC prints interim coverage reports every minute and the engine takes an interim zero for a dead action, so the
+    # coverage guard runs on the small sub-universe "cov" (contained in both tiers: an action taken there is taken in them)
+    "thorough": [dict(module="MC_RangeDim", cfg="MC_RangeDim_thorough.cfg", workers=16),
+                 dict(module="MC_RangeDim", cfg="MC_RangeDim_cov.cfg", workers=4, coverage=True, expect_cases=False)],
 }
 PROOFS = ["proofs/P_RangeDim.tla"]    # thorough tier: bracket uniqueness, right-bound-minus-one, whole count, trim law for all integers (tlapm)
 POOL = 12
@@ -234,3 +237,28 @@ def nontrivial(o):
     if c["kind"] == "range":
         return len(r.get("cb", [])) >= 1
     return True
+
+
+MANIFEST = {
+    "text": ("RangeDim.tla states, on a rational axis (a, s, n): Range(a, stop, s) = {a + i*s < stop} with the count pinned when "
+             "(stop - a)/s is whole (floor or ceil otherwise), Index(axis, v) = the unique bracket c_i <= v < c_{i+1} with the last "
+             "bin closed at the upper edge, raise / clamp outside (high clamp n-1 or n), and set_value_at_pos = exactly the "
+             "addressed cell or slice of a row-major array of <= 3 dimensions. MC_RangeDim.tla transcribes create_range_dim "
+             "(np.arange whose floating-point length is 'q or q+1' on non-representable steps, then the removal test "
+             "last >= stop - s/2), get_coord_index (range check, scan for the right slice bound, minus one) and "
+             "set_value_at_pos (one lookup per queried dimension, one write) as state machines; TLC checks Impl => Req, bracket "
+             "uniqueness, the upper-edge and own-bin laws, termination, and shows (spec/history) that arange without the removal "
+             "test breaks the whole-number count. Every enumerated call (5 constructors, 6-10 steps incl. 0.1, 0.01, 1/3, "
+             "1/44100, 3-4 starts, stops in quarter steps; every coordinate as read back, its two neighbouring doubles, every "
+             "midpoint, half a step beyond both ends, raise and clamp; all array shapes/queried dimensions/positions, scalar and "
+             "array values) plus seeded random calls on longer axes runs on the real code; TLC validates the recorded doubles "
+             "(IEEE bit patterns ordered in TLA+, limb numbers for the distance to the lattice point) clause by clause. Thorough "
+             "tier adds the laws for all integers proved by tlapm."),
+    "note": ("trusted: TLC, the binder checks/c16.py (forms query doubles from the coordinates read back and encodes doubles; it never "
+             "says where a query lies nor computes an expected index, count or cell). Coordinates must equal the lattice point "
+             "exactly on dyadic steps and lie within ~0.93e-9 step of it otherwise (np.arange accumulates i*ulp(start): random "
+             "ranges on 1/44100, 1/22050 are restricted so that this stays below the tolerance). Not pinned by the statement and "
+             "not judged: the count when (stop-start)/step is not whole beyond floor/ceil, the class of the exception, dtype "
+             "other than float64. Bounded universe + seeded random; small-scope hypothesis beyond."),
+    "design_ref": "DESIGN.md section 4 C16",
+}
